@@ -792,7 +792,15 @@ func runNoRef(c *mon.Case) {
 		pc2.Seqs[i].Exact = false
 	}
 	checkResults(c, pc2, ra, "no reference")
-	if strings.Join(sortedKeys(ra), "\n") != strings.Join(sortedKeys(rb), "\n") {
+	reported := false
+	for _, x := range append(append([]res{}, ra...), rb...) {
+		reported = reported || x.Err != ""
+	}
+	if reported {
+		// "when no error occurs the set of results does not depend on ...": with a reported alignment error what was
+		// delivered before it depends on the schedule (false alarm met at thorough seed 2, noref case 16833)
+		c.Count("noref:run-with-reported-error")
+	} else if strings.Join(sortedKeys(ra), "\n") != strings.Join(sortedKeys(rb), "\n") {
 		c.Failf("noref:differs-from-explicit-longest-orf", "Phase(nil, seqs) and Phase(longest ORF, seqs) differ:\n%s\n---\n%s", strings.Join(sortedKeys(ra), "\n"), strings.Join(sortedKeys(rb), "\n"))
 	}
 	if snapshot(seqs) != ss {
